@@ -346,4 +346,24 @@ program!(
     }
 );
 
+program!(
+    /// (C11) a node consumed same-shape by one custom op and as the broadcast operand of another
+    BcastCustom, |l| {
+        let n0 = l[0].mul(&l[1]);
+        let n1 = n0.mul(&l[1]);
+        let n2 = l[2].mul(&n0);
+        let n3 = n2.add(&n1);
+        vec![n0, n1, n2, n3]
+    }
+);
+program!(
+    /// (C11) a node used through a tracked handle and through a detached handle by one consumer
+    DetachedUse, |l| {
+        let y = l[0].mul(&l[1]);
+        let d = y.clone().detach();
+        let z = y.mul(&d);
+        vec![y, z]
+    }
+);
+
 include!("gen_programs.rs");
